@@ -155,6 +155,9 @@ def plan(tier: str, cfgs: list[dict], by_cfg: dict[int, list[dict]], seed: int) 
         rows = by_cfg[ci]
         base = cfg["ph"] == "none" and cfg["fgn"] == "none"
         runs.append({"lvl": "proto_port", "cfg": cfg, "rows": rows, "ids": X.IDS})
+        if cfg["act"] != "none":    # the same pairs before and after the active gateway becomes known
+            runs.append({"lvl": "proto_late", "cfg": cfg, "rows": rows, "ids": X.IDS,
+                         "opts": {"pre_cfg": dict(cfg, act="none")}})
         if cfg["act"] == "none":
             runs.append({"lvl": "proto_read", "cfg": cfg, "rows": rows, "ids": X.IDS})
         if tier == "quick":
